@@ -119,6 +119,10 @@ def main(argv) -> int:
         todo, kind = [m for m in MUTANTS if not ids or m["id"] in ids], "mutant"
     elif mode == "--silent":
         todo, kind = [m for m in SILENT if not ids or m["id"] in ids], "silent"
+        if os.environ.get("KVERIF_SILENT_ALL"):
+            # every check on every behaviour-preserving variant (a limit is tolerated where the variant allows it, a VIOLATION never)
+            from . import props as _props
+            todo = [dict(m, checks=list(_props.ALL)) for m in todo]
     elif mode == "--patch":
         # evaluate one patch file against all (or the given) checks; prints what fires
         from . import props as _props
